@@ -37,6 +37,13 @@ TNew == /\ IsEv("new")
         /\ cfg' = Rec[l].cfg
         /\ phase' = "open" /\ v' = << >> /\ a' = << >> /\ clockV' = 0 /\ clockA' = 0
         /\ shadow' = [firstV |-> None] /\ sunk' = 0 /\ res' = [ok |-> TRUE, variant |-> ""]
+        /\ LET e == Rec[l]  noVideo == "novideo" \in DOMAIN e.cfg IN     \* builder rule (C04): build() succeeds iff a video track is configured
+           \A s \in (IF e.var = "panic" THEN {Sig("C12", "Total", "build", ToString(<< "panic", e.msg >>))}
+                      ELSE IF "nojudge" \in DOMAIN e.cfg THEN {}
+                      ELSE IF noVideo /\ e.ok THEN {Sig("C04", "Legal", "build", "accepted-without-video")}
+                      ELSE IF noVideo /\ e.var # "MissingVideoConfig" THEN {Sig("C04", "Legal", "build", ToString(<< "wrong-error", e.var >>))}
+                      ELSE IF ~noVideo /\ ~e.ok THEN {Sig("C04", "Legal", "build", ToString(<< "rejected", e.var >>))}
+                      ELSE {}) : SigLine(e.i, l, s)
 
 Crashed(e) == e.var \in {"panic", "hang"}
 (* instances that exist only to probe totality (argument extremes, arbitrary f64 bit patterns): *)
